@@ -292,6 +292,8 @@ type c23Stats struct {
 	sameMemMove    bool
 	sameSideMove   bool
 	queued         bool // a request was issued while another was outstanding
+	inToOut        bool
+	outToIn        bool
 	changedAtPanic bool
 	zeroSize       bool
 	atEnd          bool
@@ -603,6 +605,8 @@ func c23Exec(c c23Case) (sig, msg string, st c23Stats) {
 		st.sameMemMove = st.sameMemMove || c.memOf(mv.SrcSide) == c.memOf(mv.DstSide)
 		st.sameSideMove = st.sameSideMove || mv.SrcSide == mv.DstSide
 		st.zeroSize = st.zeroSize || mv.Size == 0
+		st.inToOut = st.inToOut || (mv.SrcSide == sideIn && mv.DstSide == sideOut)
+		st.outToIn = st.outToIn || (mv.SrcSide == sideOut && mv.DstSide == sideIn)
 		st.atEnd = st.atEnd || (mv.Size > 0 && (mv.Dst+mv.Size == c.capOf(mv.DstSide) || mv.Src+mv.Size == c.capOf(mv.SrcSide)))
 		st.oddGran = st.oddGran || s&(s-1) != 0 || d&(d-1) != 0
 	}
@@ -666,6 +670,8 @@ func TestC23(t *testing.T) {
 		add(st.windows > 8, "windows>8")
 		add(st.sameMemMove, "same-memory-move")
 		add(st.sameSideMove, "same-side-move")
+		add(st.inToOut, "inside->outside")
+		add(st.outToIn, "outside->inside")
 		add(c.OneMem, "one-memory-both-sides")
 		add(st.queued, "queued-requests")
 		add(st.zeroSize, "zero-size")
@@ -688,7 +694,7 @@ func TestC23(t *testing.T) {
 		t.Skip()
 	}
 
-	kit.SetChecks(1_500, 15_000)
+	kit.SetChecks(3_000, 25_000)
 	rapid.Check(t, func(rt *rapid.T) { c := genC23(rt); run(rt, c) })
 }
 
